@@ -63,7 +63,7 @@ def jobs(tier, seed):
     return out
 
 
-WRAPPED = ("macro-twice", "loop", "named-scope", "block")
+WRAPPED = ("macro-twice", "loop", "named-scope", "block", "macro-scope-twice", "loop-scope", "blocks-scope")
 
 
 def wrapped_source(kind, mn, k):
@@ -81,6 +81,14 @@ def wrapped_source(kind, mn, k):
     if kind == "block":
         src = "{\nlp:\n{\n" + f + f"{mn} lp\n}}\n}}\n"
         return src, k + 2, [(k, 0)]
+    # a named scope declared by each expansion of a macro / loop body / sibling block: `tx.busy` is that expansion's label
+    one = ".scope tx {\nbusy:\n" + f + "}\n" + f"{mn} tx.busy\n"
+    if kind == "macro-scope-twice":
+        return ".macro bm(q) {\n" + one + "}\nbm(1)\nbm(2)\n", 2 * (k + 2), [(k, 0), (k + 2 + k, k + 2)]
+    if kind == "loop-scope":
+        return ".for i := 0, 2 {\n" + one + "}\n", 2 * (k + 2), [(k, 0), (k + 2 + k, k + 2)]
+    if kind == "blocks-scope":
+        return "{\n" + one + "}\n{\n" + one + "}\n", 2 * (k + 2), [(k, 0), (k + 2 + k, k + 2)]
     raise ValueError(kind)
 
 
